@@ -2,13 +2,13 @@
 SPECIFICATION Spec
 CONSTANTS
   Target = "classic"
-  Kinds = {"string", "integer", "float", "bool", "choice", "file", "object", "group", "data", "pgroup", "datavalue"}
+  Kinds = {"string", "integer", "float", "bool", "choice", "file", "object", "group", "data", "pgroup", "datavalue", "gdata", "objectmulti"}
   VaryGroup = FALSE
   VaryDep = FALSE
   ValueSet = "all"
   Entries = {"Load", "SetKey", "SetAll", "Check", "CheckOne"}
   MaxDepth = 1
-  Deviations = {"StrIdSkipsMembership", "PgTypeNeedsEntity"}
+  Deviations = {"StrIdSkipsMembership", "PgTypeNeedsEntity", "MultiItemsUnchecked"}
 PROPERTY VerdictIsAccepts
 PROPERTY RejectedLeavesUnchanged
 INVARIANT HierarchyLaws
